@@ -43,8 +43,10 @@ def main() -> int:
             print("%s exit=%d" % (pid, p.returncode))
             for l in lines[:8]:
                 print("   " + l[:300])
-            if p.returncode == 1:
+            if p.returncode == 1 and "VIOLATION property=" in p.stdout:
                 caught.append(pid)
+            elif p.returncode != 0:
+                print("   (exit %d without a VIOLATION line: %s)" % (p.returncode, (p.stderr or p.stdout)[-300:].replace("\n", " | ")))
         print("CAUGHT-BY: %s" % (",".join(caught) or "none"))
         return 0 if caught else 1
     finally:
